@@ -15,6 +15,8 @@ CHECKS = {
     "C04": _msg("^TestC04"),
     "C17": _msg("^TestC17"),
     "C19": _msg("^TestC19"),
+    "C18": {"pkg": "dgen", "run": "^TestC18",
+            "quick": {"shards": 1, "timeout": 1200, "shrinktime": 60}, "thorough": {"shards": 16, "timeout": 3600, "shrinktime": 120}},
     "C01": {"pkg": "wire", "run": "^TestC01",
             "quick": {"shards": 1, "timeout": 600}, "thorough": {"shards": 16, "timeout": 2400}},
     "C02": {"pkg": "wire", "run": "^TestC02",
